@@ -163,3 +163,16 @@ func (this *RaftTransport) VerifHasGroup(id [16]byte) bool {
 	_, ok := this.groups[id]
 	return ok
 }
+
+// VerifGroups lists the groups currently registered on the transport.
+func (this *RaftTransport) VerifGroups() []*RaftGroup {
+	this.groupsMu.RLock()
+	defer this.groupsMu.RUnlock()
+	var gs []*RaftGroup
+	for _, g := range this.groups {
+		gs = append(gs, g)
+	}
+	return gs
+}
+
+func (this *RaftGroup) VerifId() [16]byte { return this.id }
